@@ -330,4 +330,206 @@ theorem lookup_add_ne {α : Type} (l : List (String × α)) (n : String) (a : α
     | true => exact Or.inr (by simpa using hmn)
     | false => rw [hmn] at h; simp at h
 
+theorem Dom.of_sub {i i' : MInst} {p : Term} {B : List String} (hd : Dom i B) (hs : DomSub i i' p) :
+    Dom i' (B ++ svarNamesOf p) := by
+  intro m hm
+  rcases hs m hm with h | h
+  · exact List.mem_append_left _ (hd m h)
+  · exact List.mem_append_right _ h
+
+theorem DomSub.refl_svars {i i' : MInst} (h : i'.svars = i.svars) (p : Term) : DomSub i i' p :=
+  fun m hm => Or.inl (by rw [← h]; exact hm)
+
+/-- With fuel `2 * size(pattern)` the matcher does not answer `fuel` on patterns whose applied
+schematic variables are met uninstantiated (`Safe`) -- the branch that re-matches a beta-normal
+form is then never entered; the new bindings are schematic variables of the pattern. -/
+theorem matchAux_safe (bf : Nat) : ∀ (n : Nat) (bd : List Term) (i : MInst) (p t : Term) (B : List String),
+    Safe B p → Dom i B → (2 * termSize p ≤ n ∨ (2 * termSize p ≤ n + 1 ∧ isAbs t = true)) →
+    NoFuel (matchAux bf n bd i p t) ∧ ∀ i', matchAux bf n bd i p t = .ok i' → DomSub i i' p := by
+  intro n
+  induction n with
+  | zero =>
+    intro bd i p t B _ _ h
+    cases p <;> simp [termSize] at h <;> omega
+  | succ m ih =>
+    intro bd i p t B hs hd h
+    cases p with
+    | svar n T =>
+      simp only [matchAux]
+      refine ⟨matchSvar_nofuel _ _ _ _ _, fun i' h' => ?_⟩
+      simp only [matchSvar] at h'
+      split at h'
+      · split at h'
+        · simp at h'
+        · obtain ⟨tT, _, h'⟩ := bind_ok h'
+          obtain ⟨i1, h1, h'⟩ := bind_ok h'
+          simp only [Except.ok.injEq] at h'; subst h'
+          obtain ⟨_, hsv, _, _⟩ := bindTy_spec h1
+          intro x hx
+          simp only [MInst.addSvar, hsv] at hx
+          rcases lookup_add_ne _ _ _ _ hx with hx | rfl
+          · exact Or.inl hx
+          · exact Or.inr (by simp [svarNamesOf])
+      · split at h'
+        · simp only [Except.ok.injEq] at h'; subst h'; exact fun x hx => Or.inl hx
+        · simp at h'
+    | var n T =>
+      simp only [matchAux]
+      refine ⟨matchAtom_nofuel _ _ _, fun i' h' => ?_⟩
+      cases t <;> simp only [matchAtom] at h' <;> try (simp at h')
+      split at h'
+      · exact DomSub.refl_svars (bindTy_spec h').2.1 _
+      · simp at h'
+    | const n T =>
+      simp only [matchAux]
+      refine ⟨matchAtom_nofuel _ _ _, fun i' h' => ?_⟩
+      cases t <;> simp only [matchAtom] at h' <;> try (simp at h')
+      split at h'
+      · exact DomSub.refl_svars (bindTy_spec h').2.1 _
+      · simp at h'
+    | bound j => simp [matchAux, NoFuel]
+    | abs x T body =>
+      simp only [termSize] at h
+      simp only [matchAux]
+      unfold absCase
+      split
+      · next y U tb =>
+        have key : ∀ (i1 : MInst) (nm : String) (Uv : Ty), bindTy T U i = .ok i1 →
+            NoFuel (matchAux bf m (Term.var nm Uv :: bd) (i1.addAbsName x y)
+              (Term.substBoundAt (Term.var nm Uv) 0 (Term.substType (i1.addAbsName x y).tyinst body))
+              (Term.substBoundAt (Term.var nm Uv) 0 tb)) ∧
+            ∀ i', matchAux bf m (Term.var nm Uv :: bd) (i1.addAbsName x y)
+              (Term.substBoundAt (Term.var nm Uv) 0 (Term.substType (i1.addAbsName x y).tyinst body))
+              (Term.substBoundAt (Term.var nm Uv) 0 tb) = .ok i' → DomSub i i' (.abs x T body) := by
+          intro i1 nm Uv h1
+          have hsv : (i1.addAbsName x y).svars = i.svars := by rw [addAbsName_svars, (bindTy_spec h1).2.1]
+          obtain ⟨nf, ds⟩ := ih (Term.var nm Uv :: bd) (i1.addAbsName x y)
+            (Term.substBoundAt (Term.var nm Uv) 0 (Term.substType (i1.addAbsName x y).tyinst body))
+            (Term.substBoundAt (Term.var nm Uv) 0 tb) B
+            (Safe_open nm Uv _ 0 B (Safe_substType _ body B hs))
+            (by intro z hz; rw [hsv] at hz; exact hd z hz)
+            (Or.inl (by rw [termSize_open, termSize_substType]; omega))
+          refine ⟨nf, fun i' h' => ?_⟩
+          intro z hz
+          rcases ds i' h' z hz with hz | hz
+          · exact Or.inl (by rw [hsv] at hz; exact hz)
+          · exact Or.inr (by rw [svarNames_open, svarNames_substType] at hz; simpa [svarNamesOf] using hz)
+        refine ⟨(bindTy_nofuel _ _ _).bind fun i1 h1 => (key i1 _ _ h1).1, fun i' h' => ?_⟩
+        obtain ⟨i1, h1, h'⟩ := bind_ok h'
+        exact (key i1 _ _ h1).2 i' h'
+      · next hna =>
+        have h2 : 2 * (termSize body + 1) ≤ m + 1 := by
+          rcases h with h | ⟨_, ht⟩
+          · omega
+          · cases t <;> simp [isAbs] at ht
+            exact absurd rfl (hna _ _ _)
+        refine ⟨?_, fun i' h' => ?_⟩
+        · refine (liftT_getType_nofuel t []).bind fun tT _ => ?_
+          split
+          · simp [NoFuel]
+          · split
+            · simp [NoFuel]
+            · refine (bindTy_nofuel _ _ _).bind fun i1 h1 => ?_
+              exact (ih _ i1 _ _ B hs (by intro z hz; rw [(bindTy_spec h1).2.1] at hz; exact hd z hz)
+                (Or.inr ⟨by simpa [termSize] using h2, rfl⟩)).1
+        · obtain ⟨tT, _, h'⟩ := bind_ok h'
+          split at h'
+          · simp at h'
+          · split at h'
+            · simp at h'
+            · obtain ⟨i1, h1, h'⟩ := bind_ok h'
+              have hsv := (bindTy_spec h1).2.1
+              have := (ih _ i1 _ _ B hs (by intro z hz; rw [hsv] at hz; exact hd z hz)
+                (Or.inr ⟨by simpa [termSize] using h2, rfl⟩)).2 i' h'
+              intro z hz
+              rcases this z hz with hz | hz
+              · exact Or.inl (by rw [hsv] at hz; exact hz)
+              · exact Or.inr hz
+    | comb f a =>
+      simp only [termSize] at h
+      obtain ⟨hsh, hsf, hsa⟩ := hs
+      simp only [matchAux]
+      split
+      · next hn hT hh =>
+        have hl : i.svars.lookup hn = none := by
+          cases hl : i.svars.lookup hn with
+          | none => rfl
+          | some s => exact absurd (hd hn (by simp [hl])) (hsh hn hT hh)
+        simp only [hl]
+        split
+        · -- heuristic branch
+          unfold heurCase
+          split
+          · next tf ta =>
+            split
+            · next hc =>
+              simp only [Bool.and_eq_true] at hc
+              have hf : f = .svar hn hT := by
+                cases f <;> simp [isSvar] at hc
+                simpa [headOf] using hh
+              subst hf
+              have key : ∀ (i1 : MInst) (U' : Ty) (s : Term), bindTy hT U' i = .ok i1 →
+                  Dom (i1.addSvar hn s) (B ++ svarNamesOf (Term.svar hn hT)) := by
+                intro i1 U' s h1 z hz
+                simp only [MInst.addSvar, (bindTy_spec h1).2.1] at hz
+                rcases lookup_add_ne _ _ _ _ hz with hz | rfl
+                · exact List.mem_append_left _ (hd z hz)
+                · simp [svarNamesOf]
+              refine ⟨?_, fun i' h' => ?_⟩
+              · refine (liftT_getType_nofuel _ _).bind fun tfT _ => (bindTy_nofuel _ _ _).bind fun i1 h1 => ?_
+                exact (ih _ _ _ _ _ hsa (key i1 _ _ h1) (Or.inl (by omega))).1
+              · obtain ⟨tfT, _, h'⟩ := bind_ok h'
+                obtain ⟨i1, h1, h'⟩ := bind_ok h'
+                have := (ih _ _ _ _ _ hsa (key i1 _ _ h1) (Or.inl (by omega))).2 i' h'
+                intro z hz
+                rcases this z hz with hz | hz
+                · simp only [MInst.addSvar, (bindTy_spec h1).2.1] at hz
+                  rcases lookup_add_ne _ _ _ _ hz with hz | rfl
+                  · exact Or.inl hz
+                  · exact Or.inr (by simp [svarNamesOf])
+                · exact Or.inr (by simp [svarNamesOf, hz])
+            · simp [NoFuel]
+          · simp [NoFuel]
+        · -- Miller branch
+          refine ⟨matchMiller_nofuel _ _ _ _ _ _, fun i' h' => ?_⟩
+          simp only [matchMiller] at h'
+          obtain ⟨Ts, _, h'⟩ := bind_ok h'
+          obtain ⟨tT, _, h'⟩ := bind_ok h'
+          obtain ⟨i1, h1, h'⟩ := bind_ok h'
+          obtain ⟨r, _, h'⟩ := bind_ok h'
+          simp only [Except.ok.injEq] at h'; subst h'
+          intro z hz
+          simp only [MInst.addSvar, (bindTy_spec h1).2.1] at hz
+          rcases lookup_add_ne _ _ _ _ hz with hz | rfl
+          · exact Or.inl hz
+          · exact Or.inr (head_name_mem (.comb f a) _ hT (by simpa [headOf] using hh))
+      · -- the head is not a schematic variable
+        unfold combCase
+        split
+        · next tf ta =>
+          have sf : Safe B f := Safe.anti f B _ (fun z hz => List.mem_append_left _ hz) hsf
+          have sa : Safe B a := Safe.anti a B _ (fun z hz => List.mem_append_left _ hz) hsa
+          split
+          · obtain ⟨nf1, ds1⟩ := ih bd i f tf B sf hd (Or.inl (by omega))
+            refine ⟨nf1.bind fun i1 h1 => (ih bd i1 a ta _ hsa (hd.of_sub (ds1 i1 h1)) (Or.inl (by omega))).1, fun i' h' => ?_⟩
+            obtain ⟨i1, h1, h'⟩ := bind_ok h'
+            have d2 := (ih bd i1 a ta _ hsa (hd.of_sub (ds1 i1 h1)) (Or.inl (by omega))).2 i' h'
+            intro z hz
+            rcases d2 z hz with hz | hz
+            · rcases ds1 i1 h1 z hz with hz | hz
+              · exact Or.inl hz
+              · exact Or.inr (by simp [svarNamesOf, hz])
+            · exact Or.inr (by simp [svarNamesOf, hz])
+          · obtain ⟨nf1, ds1⟩ := ih bd i a ta B sa hd (Or.inl (by omega))
+            refine ⟨nf1.bind fun i1 h1 => (ih bd i1 f tf _ hsf (hd.of_sub (ds1 i1 h1)) (Or.inl (by omega))).1, fun i' h' => ?_⟩
+            obtain ⟨i1, h1, h'⟩ := bind_ok h'
+            have d2 := (ih bd i1 f tf _ hsf (hd.of_sub (ds1 i1 h1)) (Or.inl (by omega))).2 i' h'
+            intro z hz
+            rcases d2 z hz with hz | hz
+            · rcases ds1 i1 h1 z hz with hz | hz
+              · exact Or.inl hz
+              · exact Or.inr (by simp [svarNamesOf, hz])
+            · exact Or.inr (by simp [svarNamesOf, hz])
+        · simp [NoFuel]
+
 end Holpy.C09
